@@ -102,6 +102,50 @@ func trackedIndex(tr *L1Track, b uint64) int {
 	return -1
 }
 
+// periodBook is the monitors' own record of every bridge's finalization period, taken from the
+// ACCEPTED MsgCreateBridge (id = the answer of the message) and never from a read of the keeper:
+// all finality computations of the monitors use it.
+type periodBook map[int]int64
+
+func (pb periodBook) step(c *L1Case, i int, cur []brView, viol func(int, string, string)) {
+	o := c.Ops[i]
+	if o.Kind == "create" && c.Results[i].OK {
+		if l, ok := c.Obs[i].(OL).V[0].(OL); ok && len(l.V) == 2 {
+			if n, ok := l.V[1].(ON); ok {
+				if k := trackedIndex(c.Track, n.V.Uint64()); k >= 0 {
+					pb[k] = o.Config.Period
+				}
+			}
+		}
+	}
+	for k := range cur {
+		if p, ok := pb[k]; ok {
+			if cur[k].Exists && cur[k].Period != p {
+				viol(i, "period-mismatch", fmt.Sprintf("bridge %d was created with period %d ns, its config shows %d ns", c.Track.Bridges[k], p, cur[k].Period))
+			}
+			cur[k].Period = p
+		}
+	}
+}
+
+// executions on discarded state branches that precede the steps of a failing history
+func discardedDetail(c *L1Case, upto int) interface{} {
+	side := l1Sides[c]
+	if side == nil {
+		return nil
+	}
+	extra := map[string]interface{}{}
+	for k := 0; k <= upto; k++ {
+		for n, g := range side.discards[k] {
+			extra[fmt.Sprintf("before step %d, executed on a discarded state branch (#%d)", k, n+1)] = l1OpsHuman(g)
+		}
+	}
+	if len(extra) == 0 {
+		return nil
+	}
+	return extra
+}
+
 // ---- C11: log monitor ----
 // contiguity, strict L2 increase, time monotone, propose = append at next (records height and
 // time), delete = removal of exactly the not-final suffix + counter rollback, acceptance iff
@@ -109,13 +153,15 @@ func trackedIndex(tr *L1Track, b uint64) int {
 func logMonitor(prop string) L1Monitor {
 	return func(rep *Report, c *L1Case) {
 		viol := func(step int, sig, what string) {
-			rep.Violate(Violation{Case: c.ID, Step: step, What: what, Sig: prop + ":" + sig, Ops: l1OpsHuman(c.Ops[:step+1])})
+			rep.Violate(Violation{Case: c.ID, Step: step, What: what, Sig: prop + ":" + sig, Ops: l1OpsHuman(c.Ops[:step+1]), Detail: discardedDetail(c, step)})
 		}
 		prev := freshBridges(len(c.Track.Bridges))
 		lastNow := int64(-1 << 62)
+		book := periodBook{}
 		for i, o := range c.Ops {
 			cur := decodeBridges(c.Obs[i])
 			ok := c.Results[i].OK
+			book.step(c, i, cur, viol)
 			if o.Now < lastNow {
 				viol(i, "harness-time", "generator produced a decreasing block time")
 			}
@@ -236,7 +282,7 @@ func logMonitor(prop string) L1Monitor {
 func timelineMonitor(prop string) L1Monitor {
 	return func(rep *Report, c *L1Case) {
 		viol := func(step int, sig, what string) {
-			rep.Violate(Violation{Case: c.ID, Step: step, What: what, Sig: prop + ":" + sig, Ops: l1OpsHuman(c.Ops[:step+1])})
+			rep.Violate(Violation{Case: c.ID, Step: step, What: what, Sig: prop + ":" + sig, Ops: l1OpsHuman(c.Ops[:step+1]), Detail: discardedDetail(c, step)})
 		}
 		prev := freshBridges(len(c.Track.Bridges))
 		type fkey struct {
@@ -247,9 +293,11 @@ func timelineMonitor(prop string) L1Monitor {
 		var finalOrder []fkey
 		deletedAt := map[fkey]int{} // index removed by an accepted delete (step), until it is proposed again
 		lastNow := int64(-1 << 62)
+		book := periodBook{}
 		for i, o := range c.Ops {
 			cur := decodeBridges(c.Obs[i])
 			ok := c.Results[i].OK
+			book.step(c, i, cur, viol)
 			if o.Now < lastNow {
 				viol(i, "harness-time", "generator produced a decreasing block time")
 			}
